@@ -245,8 +245,10 @@ def runOp (op : String) (fields : List String) (impl : String) : Option Verdict 
     let posOk (src : Bytes) (i : String) (pos : String) : Bool :=
       let fmtLC (p : Nat × Nat) : String := toString p.1 ++ ":" ++ toString p.2
       match i.splitOn " " with
-      | ["ERR", sa, _] => (match sa.toNat? with | some st => pos == fmtLC (linecol src st) | none => true)
+      -- a message that names no position in the `line:column: ` form cannot be judged here
+      | ["ERR", sa, _] => pos == "-" || (match sa.toNat? with | some st => pos == fmtLC (linecol src st) | none => true)
       | ["ERR"] =>
+        pos == "-" ||
         (match (parse src).2.filterMap (·.span) with
          | sp :: _ => pos == fmtLC (linecol src sp.start.toNat)
          | [] => true)
@@ -302,10 +304,14 @@ def runOp (op : String) (fields : List String) (impl : String) : Option Verdict 
       else if impl == fmtCli spec then []
       else
         match impl.splitOn " " with
-        | ["EXIT", code, "NERR", _, "OUT", out] =>
+        | ["EXIT", code, "NERR", nerr, "OUT", out] =>
           (if out != Bytes.toHexField spec.out then ["c16-stdout-differs-from-specification"] else []) ++
           (if (code != "0") != spec.exitNonZero then ["c16-exit-status-differs-from-specification"] else []) ++
-          (if out == Bytes.toHexField spec.out && (code != "0") == spec.exitNonZero then ["c16-error-count-differs"] else [])
+          -- "a statement that fails is reported on standard error … nothing is ever dropped silently": FEWER report
+          -- lines than failures is a violation; more lines (a note, a two-line report) are not the property's business
+          (match nerr.toNat? with
+           | some n => if n < spec.nErrors then ["c16-failure-not-reported"] else []
+           | none => ["unreadable-result"])
         | _ => ["unreadable-result"]
     pure { model := fmtCli (cliRun modelCompileOpt lines.1 lines.2), oracle }
   | "HIST", [h, ps, _g, _k] => do
